@@ -288,8 +288,14 @@ example : (rq none).wrote = false ∧ (rq none).stats.status = .MaxIter ∧ (rq 
 example : (rq none).x = [4] ∧ (rq none).y = [5] ∧ (rq none).errz = [7] :=
   pantr_untouched_of_status coq Pq dirq 0 prq (stopAt none) false [4] [5] [2] [7] [0] 8 fuelOK rfl
     (by decide +kernel) (by decide +kernel)
-example : domq (rq (some 6)).x :=
-  pantr_x_out_feasible domq Pq (fun γ x g => ⟨_, rfl, (clampQ_mem _).1, (clampQ_mem _).2⟩) coq dirq 0 prq
+/-- feasibility: every component of every `x̂` the prox oracle returns — for ALL arguments, ill-sized ones
+    included — lies in `[−1, 10]`; so does the written-back `x` -/
+example : ∀ a ∈ (rq (some 6)).x, -1 ≤ a ∧ a ≤ 10 :=
+  pantr_x_out_feasible (fun u => ∀ a ∈ u, -1 ≤ a ∧ a ≤ 10) Pq
+    (fun γ x g a ha => by
+      simp only [Pq, PCq, List.mem_map] at ha
+      obtain ⟨v, -, rfl⟩ := ha
+      exact clampQ_mem v) coq dirq 0 prq
     (stopAt (some 6)) false [4] [5] [2] [7] [0] 8 fuelOK (by decide +kernel)
 /-- interrupted at tick 6: `y_out = ŷ(x_out) = [1/2]`, `err_z = (y_out − y_in)/Σ = [(1/2 − 5)/2]` -/
 example : (rq (some 6)).y = (Pq.psi (rq (some 6)).x).2 ∧
@@ -311,6 +317,16 @@ example : (rq none).callbacks.length = 3 := by decide +kernel
 example (pr : Params ℚ) (h0 : pr.L0 = 0) (h1 : pr.Lmin = 1/100000) (h2 : pr.Lmax = 100000000000000000000)
     (h3 : pr.qubFuel = 4096) : FuelOK pr 84 :=
   ⟨by rw [h1]; norm_num, by rw [h2]; norm_num, by rw [h0, h1, h2]; norm_num, by rw [h3]; norm_num⟩
+
+/-- **`FuelOK` (and `ParamsOK`) for the library's DEFAULT `PANTRParams`** (`Proofs/PantrExampleQ.lean:
+    defaultParams`, transcribed from pantr.hpp / lipschitz.hpp): `N = 84`, model fuel 4096 … -/
+example : FuelOK defaultParams 84 := defaultParams_fuelOK
+example : ParamsOK defaultParams := defaultParams_paramsOK
+/-- … so the exit contract holds for the default parameters, every problem, provider and stop schedule;
+    here on the example problem. -/
+example (stop : Nat → Bool) (oot : Bool) :
+    ExitOK Pq [4] [5] [2] [7] (run coq Pq dirq 0 defaultParams stop oot [4] [5] [2] [7] [0]) :=
+  pantr_exit_contract coq Pq dirq 0 defaultParams stop oot [4] [5] [2] [7] [0] 84 defaultParams_fuelOK
 
 end examplesQ
 
